@@ -72,7 +72,9 @@ Proof.
   - rewrite entry_m_empty by done. auto.
   - rewrite entry_m_add. auto.
   - rewrite entry_m_rm. intros He. destruct (is_hold n k c) eqn:Hh; [right; left; eauto 10|auto].
-  - rewrite entry_m_delete. intros He. destruct (decide (sid = sid0)) as [->|]; [right; right; exists tid, t; done|auto].
+  - rewrite entry_m_delete. intros He. destruct (decide (sid = sid0)) as [->|]; [|auto].
+    destruct Hpc as [Hpc|[Hpc ->]]; [right; right; exists tid, t; done|].
+    destruct He as (l' & Hl' & Hc'). rewrite Hl in Hl'. simplify_eq. by apply elem_of_nil in Hc'.
 Qed.
 
 Lemma step_vi_entry_owner cfg s it s' (I : SvInv cfg s) (Hok : sitem_ok s it) (Hv : vsr cfg s it s') :
